@@ -4,6 +4,7 @@
 //!
 //! usage: vh-e2e key=value ...      (all parameters have defaults; see `Cfg`)
 mod app;
+mod attacks;
 mod cfg;
 mod icpt;
 mod net;
